@@ -18,6 +18,12 @@ def check_tokens(code, v):
     vi = parse_version_string(v)
     info = {'special': False}
     try:
+        # history: a consumer that stops reading another stream inside an indented block (or a strict parse that raises
+        # there) must not influence this stream
+        it = tokenize('if x:\n    if y:\n        z\n', version_info=vi)
+        for _ in range(9):
+            next(it)
+        del it
         toks = list(tokenize(code, version_info=vi))
     except RecursionError:
         raise
